@@ -614,7 +614,7 @@ func (x *Exec) mapKeyTerm(st *State, v Value, kt types.Type) *Term {
 func (x *Exec) mapArr(st *State, key, sort string) *Term {
 	h, ok := st.Heap[key]
 	if !ok {
-		h = Var("H0$"+key, sort)
+		h = st.lazyVersion(false, key, sort)
 		st.Heap[key] = h
 		x.heapSorts[key] = sort
 	}
@@ -727,7 +727,14 @@ func (x *Exec) doPanic(st *State, i *ssa.Panic) {
 
 func (x *Exec) doGo(st *State, i *ssa.Go) {
 	// spawns nothing in the VC; interference is covered by the monitor/rely rules
-	st.Events = append(st.Events, "go:"+calleeName(i.Common()))
+	c := i.Common()
+	name := calleeName(c)
+	if f := c.StaticCallee(); f != nil {
+		name = FuncName(originOf(f))
+	} else if c.IsInvoke() {
+		name = c.Method.Name()
+	}
+	st.Events = append(st.Events, "go:"+name)
 }
 
 func calleeName(c *ssa.CallCommon) string {
